@@ -1,5 +1,5 @@
 (* Extraction of the executable model for the correspondence check.  ExtrOcamlBasic only. *)
 Require Import ExtrOcamlBasic.
-Require Import FL.Base.PathName FL.Base.Bytes FL.Fs.Fs FL.Time.Civil FL.Time.TsFormat FL.Names.FileSpec FL.Flw.Model FL.Flw.Run FL.Oracles.O_Flw FL.Oracles.ReaderOrder FL.Oracles.O_Age FL.Oracles.O_Stream FL.Oracles.O_Names FL.LogSpec.Spec FL.LogSpec.Dispatch FL.LogSpec.LRun.
+Require Import FL.Base.PathName FL.Base.Bytes FL.Fs.Fs FL.Time.Civil FL.Time.TsFormat FL.Names.FileSpec FL.Flw.Model FL.Flw.Run FL.Oracles.O_Flw FL.Oracles.ReaderOrder FL.Oracles.O_Age FL.Oracles.O_Stream FL.Oracles.O_Names FL.LogSpec.Spec FL.LogSpec.Dispatch FL.LogSpec.LRun FL.Conc.CModel.
 Extraction Language OCaml.
-Extraction "model.ml" run sys0 std_fmt oracle_C08 oracle_C01 family_in_order file_stem extension name_documented oracle_listing current_name expected_listing oracle_tail oracle_all oracle_limits oracle_current_plain oracle_tiles stream_of oracle_C09_partition tpartition crit_parts expected_ts_infix reader_order full_infix split_restart fixed_name_part cur_infix_of run_spec run_builder lrun new_logger spec_of_string.
+Extraction "model.ml" run sys0 std_fmt oracle_C08 oracle_C01 family_in_order crun cinit code_fixed schedule_of done_b cspec cgate max_level file_stem extension name_documented oracle_listing current_name expected_listing oracle_tail oracle_all oracle_limits oracle_current_plain oracle_tiles stream_of oracle_C09_partition tpartition crit_parts expected_ts_infix reader_order full_infix split_restart fixed_name_part cur_infix_of run_spec run_builder lrun new_logger spec_of_string.
